@@ -255,6 +255,15 @@ def _frame_del(df):
 def _items(model, lst, ids, as_obj):
     if ids is None:
         return None
+    if as_obj == "foreign":
+        # objects of ANOTHER model with the same identifiers (a copy in which everything is shut): they only name the entities
+        other = model.copy()
+        for r in other.reactions:
+            r.bounds = (0, 0)
+        for g in other.genes:
+            g._functional = False
+        olst = other.genes if lst is model.genes else other.reactions
+        return [olst.get_by_id(i) if olst.has_id(i) else i for i in ids]
     return [lst.get_by_id(i) if as_obj else i for i in ids]
 
 
@@ -1016,7 +1025,7 @@ def _gen_call(rng, W, prop):
     if kind == "fva":
         if rng.random() < 0.6:
             a["rxns"] = subset(rids)
-            a["as_obj"] = rng.random() < 0.5
+            a["as_obj"] = rng.choice([True, True, False, False, "foreign"])
             if a["rxns"] and rng.random() < 0.1:
                 a["rxns"].append(rng.choice(a["rxns"]))  # the same reaction requested twice
         base = fba.solve_ref(ref)
@@ -1047,7 +1056,9 @@ def _gen_call(rng, W, prop):
                 a["l1"] = subset(lst)
         if rng.random() < 0.06:
             a[rng.choice(["l1", "l2"]) if "double" in kind else "l1"] = []  # given, but empty
-        a["as_obj"] = rng.random() < 0.5
+        a["as_obj"] = rng.choice([True, True, False, False, "foreign"])
+        if "double" in kind and a.get("l2") is not None and rng.random() < 0.3:
+            a["l1"] = None  # only the second list is given: all x l2
         if rng.random() < 0.5:
             a["accessor"] = [{"i": rng.randint(0, 6), "obj": rng.random() < 0.5, "bare": rng.random() < 0.5} for _ in range(2)]
         if prop == "C13" and rng.random() < 0.4:
